@@ -1,26 +1,31 @@
 #!/bin/bash
-# usage: tools/seedbatch.sh ID...   (reads /tmp/mut/<ID>/out/{A,B}.diff, keeps confirmed ones in seeded/)
-cd /verif
+# usage: tools/seedbatch.sh ID...
+# Reads /tmp/mut/<ID>/out/{A,B}.diff (+ demo_X.py, notes.md), validates each seeded change and runs the checks
+# against it FROM A SNAPSHOT of /verif (so that edits made meanwhile do not disturb the run); confirmed ones are
+# kept under /verif/seeded/<ID>-<X>/.
+snap=$(mktemp -d /tmp/zsnap.XXXXXX)
+rsync -a --exclude .git --exclude replays --exclude __pycache__ /verif/ $snap/
+mkdir -p $snap/replays
+cd $snap
 for id in "$@"; do
   for x in A B; do
     if [ -f /tmp/mut/$id/out/$x.diff ]; then
-      needs=$(python3 - <<PY
-import re
+      needs=$(python3 -c "
 try:
     t=open('/tmp/mut/$id/out/notes.md').read()
-    print(' '.join(t.split())[:1500])
+    print(' '.join(t.split())[:1800])
 except Exception: print('')
-PY
-)
-      python3 tools/seedtest.py /tmp/mut/$id/out/$x.diff /tmp/mut/$id/out/demo_$x.py $id --name "$id-$x" --all --thorough --keep seeded/$id-$x --needs "$needs" > /tmp/mut/$id/out/seedtest_$x.json 2>&1
-      python3 - <<PY
+")
+      python3 tools/seedtest.py /tmp/mut/$id/out/$x.diff /tmp/mut/$id/out/demo_$x.py $id --name "$id-$x" --all --thorough --keep /verif/seeded/$id-$x --needs "$needs" > /tmp/mut/$id/out/seedtest_$x.json 2>&1
+      python3 -c "
 import json
 try:
     d=json.load(open('/tmp/mut/$id/out/seedtest_$x.json'))
     print('$id-$x', 'confirmed' if d.get('confirmed') else 'NOT-CONFIRMED', 'caught_by=', d.get('caught_by'))
 except Exception as e:
     print('$id-$x', 'ERROR', open('/tmp/mut/$id/out/seedtest_$x.json').read()[-400:])
-PY
+"
     fi
   done
 done
+rm -rf $snap
